@@ -13,7 +13,7 @@ CORPUS = os.path.join(VERIF, "corpus", "mt")
 # CVODE KINETICS 1 made a later 5-cell TRANSPORT take 35 s natively).  What does persist on purpose: RATES, SELECTED_OUTPUT
 # 1-3 / USER_PUNCH / USER_PRINT definitions, PRINT options, solutions, EQUILIBRIUM_PHASES 1 (inside transport cell 1).
 ALLDB = ["small.dat", "phreeqc.dat", "pitzer.dat"]
-WORKLOADS = {n: list(ALLDB) for n in ("spec", "kin_rk", "kin_cvode", "transport", "transport_md", "inverse", "basic", "error", "react", "sticky")}
+WORKLOADS = {n: list(ALLDB) for n in ("spec", "kin_rk", "kin_cvode", "transport", "transport_md", "inverse", "basic", "error", "react", "sticky", "zdiv", "arrays")}
 DATABASES = list(ALLDB)
 # workloads that execute Phreeqc::transport(): at most ONE thread of a schedule may run them (known finding: transport.cpp keeps
 # its working state in file-scope globals shared by all instances, so two TRANSPORT runs at the same time race and can crash)
@@ -44,6 +44,8 @@ def params(p):
         "K": "%.4f" % (0.001 * (1 + p)),
         "NA2": "%.2f" % (1.5 + 0.02 * (p % 4)),
         "STK": STICKY_EXPR[p % len(STICKY_EXPR)],
+        "DIMN": "%d" % [8, 24, 64, 130, 200, 520, 1000, 5000][p % 8],       # below and above glibc's tcache limit (1032 bytes)
+        "DIMM": "%d" % [8, 17, 40, 129, 300][p % 5],
     }
 
 
